@@ -89,6 +89,20 @@ Theorem C12_cover_monitor_sound : forall n1 n2 D rads tol tri cover,
   forall i, (i < n1)%nat -> cover_complete tri n2 D cover i (rad_of rads i - tol - 1).
 Proof. exact monitor_gives_cover_complete. Qed.
 
+(* A limit only cuts: with maxmatch = k > 0 every group is the first k rows of the group of the
+   unlimited call -- for every cover (no H_cover needed) and every sorter meeting the contract, in
+   particular the model's own.  Together with C12_exact this is "the k closest pairs of each group". *)
+Theorem C12_limit_is_prefix_of_unlimited : forall tri n2 dis cover sorter rads n1 k i,
+  sort_contract sorter -> 0 < k ->
+  group i (match_loop dis cover sorter (init_hmap tri n2) k rads n1)
+  = firstn (Z.to_nat k) (group i (match_loop dis cover sorter (init_hmap tri n2) 0 rads n1)).
+Proof. exact limit_is_prefix. Qed.
+
+Theorem C12_limit_is_prefix_of_unlimited_exec : forall tri n2 dis cover rads n1 k i, 0 < k ->
+  group i (match_loop dis cover isort_c (init_hmap tri n2) k rads n1)
+  = firstn (Z.to_nat k) (group i (match_loop dis cover isort_c (init_hmap tri n2) 0 rads n1)).
+Proof. intros. apply limit_is_prefix; [exact isort_c_contract|assumption]. Qed.
+
 (* The pair file against the statement.  If the rows of the in-memory call satisfy the statement
    with tolerance tol and print-then-parse ("%.16g", strtod) moves a distance by at most delta,
    maps 0 to 0 and is monotone, the rows read back satisfy the statement with tolerance
@@ -124,3 +138,8 @@ Proof.
   split; [vm_compute; reflexivity|]. split; [vm_compute; reflexivity|].
   split; [split; [reflexivity|left; reflexivity]|]. intros [H _]. discriminate.
 Qed.
+
+Example C12_prefix_nonvacuous :
+  group 0 (match_loop dx_dis (fun _ => all_ids dx_tri 4) isort_c (init_hmap dx_tri 4) 2 [6] 2) = [(1%nat, 1); (0%nat, 5)]
+  /\ group 0 (match_loop dx_dis (fun _ => all_ids dx_tri 4) isort_c (init_hmap dx_tri 4) 0 [6] 2) = [(1%nat, 1); (0%nat, 5); (2%nat, 5)].
+Proof. split; vm_compute; reflexivity. Qed.
